@@ -222,6 +222,22 @@ CHECKS.append(dict(
     technique='property-based testing (Hypothesis): generated concave problems vs closed-form reference likelihood/KKT conditions, differential across algorithms',
 ))
 
+CHECKS.append(dict(
+    id='C03',
+    text='Metamorphic: a model and its twin (bijective renaming of all parameters incl. order-reversing and case-changing maps, '
+         'commutative operands swapped, list / dictionary entries permuted) are built as independent object graphs. For random '
+         'formulas: sorted free_beta_names, equal log likelihood, gradient entries and bounds attached to corresponding names, '
+         'equal simulate rows (value dictionaries listed in shuffled order), get_value_c with a partial dictionary overriding only '
+         'the named parameters. For simulated logit problems: estimates, every column of the parameter table, pairwise '
+         'covariances/correlations and bounds attach to the corresponding names; fixed parameters keep their value and are not '
+         'reported. A parameter name reused for a column, draw variable, random variable or a free+fixed pair must be refused '
+         'with BiogemeError through BIOGEME(...), get_value_c and get_value_and_derivatives.',
+    note='Log likelihoods 1e-9 relative to the sum of absolute terms; estimates 2e-4, statistics 2e-3 relative (optimiser tolerance '
+         '1e-7, simple_bounds_newton); identified, well-conditioned problems only; min/max keep operand order (tie derivative); '
+         'override of FIXED parameters by a dictionary is not asserted (undocumented).',
+    technique='property-based testing (Hypothesis): metamorphic renaming/reordering relation on generated models, refusal checks for duplicate names',
+))
+
 _claimed = {c['id'] for c in CHECKS}
 NOT_APPLICABLE = [
     dict(property_id=p, reason='check not built yet (work in progress; planned in DESIGN.md section 3)')
